@@ -4,6 +4,9 @@
 (*     [t |-> "R", off, len]  len bytes copied from `off` back (overlap allowed: runs)      *)
 (*     [t |-> "C", n, m]      n little-endian int64 values  i % m  (i = 0, 1, ..): a column    *)
 (*                            cycling through m values, i.e. data of period 8*m bytes          *)
+(*     [t |-> "V", n, s]      n little-endian int32 values drawn pseudo-randomly (seed s) from  *)
+(*                            s % 29 + 2 distinct values: a low-cardinality column in random   *)
+(*                            order (short matches everywhere)                                 *)
 (* The replayer expands them to bytes; the specification only reasons about shape, length   *)
 (* and identity of the input.                                                               *)
 EXTENDS Naturals, Sequences, SequencesExt
@@ -11,11 +14,12 @@ EXTENDS Naturals, Sequences, SequencesExt
 DL(n, s)     == [t |-> "L", n |-> n, s |-> s]
 DR(off, len) == [t |-> "R", off |-> off, len |-> len]
 DC(n, m)     == [t |-> "C", n |-> n, m |-> m]
-SegLen(g)  == IF g.t = "L" THEN g.n ELSE IF g.t = "C" THEN 8 * g.n ELSE g.len
+DV(n, s)     == [t |-> "V", n |-> n, s |-> s]
+SegLen(g)  == IF g.t = "L" THEN g.n ELSE IF g.t = "C" THEN 8 * g.n ELSE IF g.t = "V" THEN 4 * g.n ELSE g.len
 DescLen(d) == FoldLeft(LAMBDA a, g : a + SegLen(g), 0, d)
 \* a repeat must refer to bytes that exist
 DescOk(d) == FoldLeft(LAMBDA acc, g : IF ~acc[2] THEN acc
-                                      ELSE IF g.t \in {"L", "C"} THEN <<acc[1] + SegLen(g), TRUE>>
+                                      ELSE IF g.t \in {"L", "C", "V"} THEN <<acc[1] + SegLen(g), TRUE>>
                                       ELSE <<acc[1] + g.len, g.off >= 1 /\ g.off <= acc[1]>>,
                       <<0, TRUE>>, d)[2]
 
